@@ -962,7 +962,7 @@ fn restrict(m: &typegen::Module, keep_insts: &[usize]) -> Option<typegen::Module
         }
     }
     let map: std::collections::HashMap<usize, usize> = need.iter().enumerate().map(|(n, o)| (*o, n)).collect();
-    let mut out = typegen::Module { name: m.name.clone(), types: vec![], insts: vec![], serde: m.serde, extra_roots: m.extra_roots.clone() };
+    let mut out = typegen::Module { name: m.name.clone(), types: vec![], insts: vec![], serde: m.serde, extra_roots: m.extra_roots.clone(), without_ts_derive: m.without_ts_derive };
     for o in &need {
         let mut td = m.types[*o].clone();
         for f in td.all_fields_mut() {
